@@ -497,9 +497,113 @@ def gen_pycase():
     return "\n".join(out) + "\n"
 
 
+# ---- inventory of module-level state of the decompiler and of the writes that reach it (Gen/ModuleState.lean)
+
+def gen_module_state_inventory():
+    """over every module of drxtract/lingosrc: (a) module-level names bound to a mutable container or an object
+    (dict / list / set literals, comprehensions, calls) and class-level ones; (b) every place inside a function or method that can
+    change state living longer than one decompilation: a `global` / `nonlocal` statement, an assignment / augmented assignment /
+    delete / mutating call whose base name is a module-level name (of the same module or imported), a class attribute written
+    through the class name or `cls`, `setattr` / `__dict__` / `globals()` uses. -> (holders, writes)"""
+    import ast
+    base = REPO / "drxtract" / "lingosrc"
+    holders, writes = [], []
+    MUT = MUTATORS | {"update", "setdefault", "add", "discard", "popitem", "appendleft"}
+    for f in sorted(base.rglob("*.py")):
+        mod = f.relative_to(base).with_suffix("").as_posix().replace("/", ".")
+        tree = ast.parse(f.read_text())
+        modnames, classes = set(), set()
+        def is_container(v):
+            return isinstance(v, (ast.Dict, ast.List, ast.Set, ast.ListComp, ast.DictComp, ast.SetComp, ast.Call))
+        def top(body, owner):
+            for n in body:
+                tgts, val = [], None
+                if isinstance(n, ast.Assign):
+                    tgts, val = n.targets, n.value
+                elif isinstance(n, ast.AnnAssign) and n.value is not None:
+                    tgts, val = [n.target], n.value
+                for t in tgts:
+                    if isinstance(t, ast.Name):
+                        if owner == "-":
+                            modnames.add(t.id)
+                        if is_container(val):
+                            holders.append((mod, owner, t.id, type(val).__name__))
+                if isinstance(n, (ast.Import, ast.ImportFrom)) and owner == "-":
+                    for a in n.names:
+                        modnames.add((a.asname or a.name).split(".")[0])
+                if isinstance(n, ast.ClassDef) and owner == "-":
+                    classes.add(n.name)
+                    top(n.body, n.name)
+        top(tree.body, "-")
+        def scan(fn, owner):
+            params = {a.arg for a in fn.args.args + fn.args.kwonlyargs} | ({fn.args.vararg.arg} if fn.args.vararg else set())
+            local = set(params)
+            for n in ast.walk(fn):
+                if isinstance(n, (ast.Assign, ast.AnnAssign, ast.AugAssign, ast.For)):
+                    for t in (n.targets if isinstance(n, ast.Assign) else [n.target]):
+                        for tt in (t.elts if isinstance(t, ast.Tuple) else [t]):
+                            if isinstance(tt, ast.Name):
+                                local.add(tt.id)
+            globs = set()
+            for n in ast.walk(fn):
+                if isinstance(n, (ast.Global, ast.Nonlocal)):
+                    globs |= set(n.names)
+                    writes.append((mod, owner, fn.name, "global", ",".join(n.names)))
+            def shared(b):
+                return b is not None and (b in globs or ((b in modnames or b in classes or b == "cls") and b not in local))
+            for n in ast.walk(fn):
+                tgts = []
+                if isinstance(n, ast.Assign):
+                    tgts = n.targets
+                elif isinstance(n, (ast.AugAssign, ast.AnnAssign)):
+                    tgts = [n.target]
+                elif isinstance(n, ast.Delete):
+                    tgts = n.targets
+                for t in tgts:
+                    for tt in (t.elts if isinstance(t, ast.Tuple) else [t]):
+                        if isinstance(tt, (ast.Attribute, ast.Subscript)) and shared(_base_name(tt)):
+                            writes.append((mod, owner, fn.name, "assign", ast.unparse(tt)))
+                if isinstance(n, ast.Call) and isinstance(n.func, ast.Attribute) and n.func.attr in MUT and shared(_base_name(n.func.value)):
+                    writes.append((mod, owner, fn.name, "call", ast.unparse(n.func)))
+                if isinstance(n, ast.Call) and isinstance(n.func, ast.Name) and n.func.id in ("setattr", "delattr", "globals", "vars"):
+                    writes.append((mod, owner, fn.name, "call", ast.unparse(n)[:80]))
+                if isinstance(n, ast.Attribute) and n.attr == "__dict__":
+                    writes.append((mod, owner, fn.name, "dict", ast.unparse(n)[:80]))
+                if isinstance(n, ast.Call) and isinstance(n.func, ast.Name) and n.func.id in ("lru_cache", "cache"):
+                    writes.append((mod, owner, fn.name, "cache", ast.unparse(n)[:80]))
+            for d in fn.decorator_list:
+                if "cache" in ast.unparse(d):
+                    writes.append((mod, owner, fn.name, "cache", ast.unparse(d)[:80]))
+        for n in tree.body:
+            if isinstance(n, ast.FunctionDef):
+                scan(n, "-")
+            elif isinstance(n, ast.ClassDef):
+                for m in n.body:
+                    if isinstance(m, ast.FunctionDef):
+                        scan(m, n.name)
+    return sorted(set(holders)), sorted(set(writes))
+
+
+def gen_module_state():
+    holders, writes = gen_module_state_inventory()
+    out = ["-- GENERATED by harness/lscr_common.py (Python `ast` walk over every module of drxtract/lingosrc); do not edit",
+           "-- holders: module-level / class-level names bound to a container or object (module, class or '-', name, form)",
+           "-- writes: every statement inside a function or method that can change such state (global statements, assignments and",
+           "-- mutating calls whose base is a module-level name, class or `cls`, setattr/globals/__dict__, caches):",
+           "-- (module, class or '-', function, kind, target)",
+           "namespace Drx.Gen.ModuleState", "",
+           "def holders : List (String × String × String × String) := ["]
+    out.append(",\n".join(f"  ({_ls(a)}, {_ls(b)}, {_ls(c)}, {_ls(d)})" for a, b, c, d in holders))
+    out += ["]", "", "def writes : List (String × String × String × String × String) := ["]
+    out.append(",\n".join(f"  ({_ls(a)}, {_ls(b)}, {_ls(c)}, {_ls(d)}, {_ls(e)})" for a, b, c, d, e in writes))
+    out += ["]", "", "end Drx.Gen.ModuleState"]
+    return "\n".join(out) + "\n"
+
+
 def gen_lscr_tables():
     return {"Drx/Gen/Opcodes.lean": gen_opcodes(), "Drx/Gen/OpNames.lean": gen_opnames(),
             "Drx/Gen/PropTables.lean": gen_proptables(), "Drx/Gen/Mutations.lean": gen_mutations(),
+            "Drx/Gen/ModuleState.lean": gen_module_state(),
             "Drx/Gen/PyCase.lean": gen_pycase()}
 
 
@@ -869,13 +973,17 @@ def rand_const(rng):
     return ("f", struct.pack(">HQ", e, q & (2 ** 64 - 1)))
 
 
-def rand_script(rng, wild=0.008, hist=None, max_stmts=6):
-    """a random script: (lscr bytes, lnam bytes, spec dict)"""
-    names = list(BASE_NAMES)
-    rng.shuffle(names)
-    for _ in range(rng.randrange(0, 6)):
-        names.append(bytes(rng.choice(b"abcdefgXYZ_09 \xca\x8e<") for _ in range(rng.choice([0, 1, 2, 5, 9]))))
-    names = names[:rng.choice([len(names), len(names), 8, 30])] if rng.random() < 0.15 else names
+def rand_script(rng, wild=0.008, hist=None, max_stmts=6, names=None):
+    """a random script: (lscr bytes, lnam bytes, spec dict); `names` fixes the name table (scripts of one movie share their names,
+    so that one name occurs in several roles: symbol, method selector, global, handler)"""
+    if names is not None:
+        names = list(names)
+    else:
+        names = list(BASE_NAMES)
+        rng.shuffle(names)
+        for _ in range(rng.randrange(0, 6)):
+            names.append(bytes(rng.choice(b"abcdefgXYZ_09 \xca\x8e<") for _ in range(rng.choice([0, 1, 2, 5, 9]))))
+        names = names[:rng.choice([len(names), len(names), 8, 30])] if rng.random() < 0.15 else names
     consts = [rand_const(rng) for _ in range(rng.choice([0, 1, 3, 6, 10, 45]))]
     wide = rng.random() < 0.12
     bpc = 8 if (wide and consts) else 6
